@@ -120,6 +120,8 @@ struct Sim {
     pay_index: HashMap<Vec<u8>, usize>,
     states: Vec<u64>,
     hostile: bool,
+    /// logical times at which a settle phase reached quiescence with the router still running
+    quiescent_times: Vec<u64>,
 }
 
 fn headers_of(f: &Frame) -> Option<&HashMap<String, String>> {
@@ -501,6 +503,10 @@ impl Sim {
                 return false;
             }
         }
+        if self.alive {
+            let t = lock(&self.sh).t;
+            self.quiescent_times.push(t);
+        }
         true
     }
 
@@ -530,6 +536,14 @@ impl Sim {
         }
     }
 
+    /// last time the router called anything on this peer's mocks
+    fn last_touch(w: &World, peer: usize) -> Option<u64> {
+        w.log.iter().rev().find_map(|e| match &e.kind {
+            EvKind::Call { peer: p, .. } if *p == peer => Some(e.t),
+            _ => None,
+        })
+    }
+
     /// router-level: time at which the router observed the departure
     fn rep_departure_seen(w: &World, rep: usize) -> Option<u64> {
         let st = w.peers[rep].stream.as_ref().unwrap();
@@ -557,6 +571,10 @@ impl Sim {
         let running = self.alive;
         let dead = !self.alive && !self.completed;
         let dead_tag = if dead { "/router-dead" } else { "" };
+        // C16 states the flush obligation for pub/sub messages only: once the channel is closed a
+        // req/rep router may drop what it buffered, so loss/flush oracles stop there (safety
+        // oracles — duplication, misrouting, alteration — continue to apply)
+        let shutting_down = self.closed;
 
         // ---- classification of repliers --------------------------------------------------
         let mut bound_live: Vec<usize> = vec![];
@@ -585,13 +603,23 @@ impl Sim {
                         detail: format!("{}: rejected replier {} received the replier-already-bound error but its stream was never closed and no wake-up is outstanding", at, pe.label),
                     });
                 }
-                // was anybody else around who could have been bound?
+                // was anybody else around who could have been bound? The router keeps polling the
+                // stream of the replier it considers bound, so a replier it still touched after
+                // this registration was sent may legitimately have been the reason for the rejection
+                // (a registration racing with a departure may be bound or rejected).
                 let t_err = si.started[0].0;
                 let reg = pe.reg_sent.unwrap();
                 let other = self.reps.iter().any(|&o| {
                     o != r
                         && w.peers[o].reg_sent.map_or(false, |t| t < t_err)
-                        && Self::rep_departure_seen(&w, o).map_or(true, |d| d > reg)
+                        && match Self::rep_departure_seen(&w, o) {
+                            // never seen to leave: may well be bound
+                            None => true,
+                            // seen to leave: the unbinding (flush of its sink and of the requestor
+                            // sinks) may still be in progress; it is certainly complete only once
+                            // the router has reached a quiescent point after that
+                            Some(d) => !self.quiescent_times.iter().any(|q| d < *q && *q < reg),
+                        }
                         && !Self::is_rejected(&w, o)
                 });
                 if !other {
@@ -806,7 +834,7 @@ impl Sim {
                         continue;
                     }
                     let n = deliveries.iter().filter(|d| d.2 == *uid && d.1 == r).count();
-                    if n == 0 {
+                    if n == 0 && !shutting_down {
                         self.findings.push(Finding {
                             class: "routing",
                             sig: format!("reqrep/request-lost{}", dead_tag),
@@ -815,7 +843,7 @@ impl Sim {
                     }
                 }
             }
-            if rsi.flushed != rsi.started.len() {
+            if rsi.flushed != rsi.started.len() && !shutting_down {
                 self.findings.push(Finding {
                     class: "flush",
                     sig: format!("reqrep/replier-unflushed{}", dead_tag),
@@ -854,7 +882,7 @@ impl Sim {
                     }
                 }
             }
-            if si.healthy() && si.flushed != si.started.len() && w.peers[q].reg_sent.is_some() {
+            if si.healthy() && si.flushed != si.started.len() && w.peers[q].reg_sent.is_some() && !shutting_down {
                 self.findings.push(Finding {
                     class: "flush",
                     sig: format!("reqrep/requestor-unflushed{}", dead_tag),
@@ -893,7 +921,7 @@ impl Sim {
                                 detail: format!("{}: reply uid={} was handed to {} {} times", at, uid, w.peers[q].label, mine.len()),
                             });
                         }
-                        if mine.is_empty() && connected {
+                        if mine.is_empty() && connected && !shutting_down {
                             self.findings.push(Finding {
                                 class: "routing",
                                 sig: format!("reqrep/reply-lost{}", dead_tag),
@@ -1110,6 +1138,7 @@ pub fn run(seed: u64, family: &str, keep_dump: bool) -> RunResult {
         pay_index: HashMap::new(),
         states: vec![],
         hostile: cfg.hostile,
+        quiescent_times: vec![],
     };
     for i in 0..cfg.n_reqs {
         let fault = if cfg.faults && rng.pct(50) {
@@ -1290,9 +1319,20 @@ pub fn run(seed: u64, family: &str, keep_dump: bool) -> RunResult {
             sim.quiescent_checks("final quiescence");
         }
     } else {
-        sim.quiescent_checks("after router death");
+        sim.quiescent_checks(if sim.completed { "after completion" } else { "after router death" });
     }
     if sim.alive && !sim.closed {
+        // faults stop: plans that have not fired yet are disarmed before the end-to-end probe
+        {
+            let mut w = lock(&sh);
+            for p in w.peers.iter_mut() {
+                if let Some(si) = p.sink.as_mut() {
+                    if si.failed.is_none() {
+                        si.plan.fault = None;
+                    }
+                }
+            }
+        }
         sim.probe();
         if sim.alive {
             sim.quiescent_checks("after probe");
